@@ -144,7 +144,12 @@ int h_mlock(const void *a, size_t n) {
     return rc;
 }
 int h_munlock(const void *a, size_t n) { (void) a; (void) n; return lock_outcome(); }
-int h_madvise(void *, size_t, int) { return lock_outcome(); }
+int h_madvise(void *a, size_t, int) {
+    // like the kernel: an unaligned or unmapped address is an error whatever the policy says
+    if ((uintptr_t) a % M.P != 0) { errno = EINVAL; return -1; }
+    if (!M.find((uintptr_t) a)) { errno = ENOMEM; return -1; }
+    return lock_outcome();
+}
 long h_sysconf(int name) { return name == _SC_PAGESIZE ? (long) M.P : simos_real_sysconf(name); }
 
 // ---------------- termination + probes ----------------
@@ -335,6 +340,9 @@ struct Exec {
         if (huge) {
             // cannot be satisfied by the (simulated) OS: must fail cleanly
             if (p) { res.fail("huge-not-rejected", api, "a request of " + std::to_string(size) + " bytes succeeded", step); return; }
+            // the mmap build reports the kernel's ENOMEM; posix_memalign() returns its error instead of setting errno,
+            // so nothing is demanded there (DESIGN 11, item 5)
+            if (std::string(C17_VARIANT) == "mmap" && e != ENOMEM) { res.fail("huge-wrong-errno", api, "a request of " + std::to_string(size) + " bytes that the OS refused with ENOMEM failed with errno " + std::to_string(e), step); return; }
             res.count("probe.huge_rejected");
             return;
         }
